@@ -229,16 +229,26 @@ def h_verify_damage(kind: int, fsel: int, pos: int, gz: bool, quick: bool, chain
         h = T.Hist(st)
         h.commit([(T.oid(1), b'first'), (T.oid(2), b'second')])
         st._file.flush()
+        states = []
+
+        def snap():
+            st._file.flush()
+            states.append(_committed_prefix(bytes(env.fs.content(SRC))))
+        snap()
         _backup(env, 0, True, False, gz, False)
         h.commit([(T.oid(1), b'more-data-1')])
+        snap()
         _backup(env, 1, False, False, gz, False)
         h.commit([(T.oid(3), b'even-more')])
+        snap()
         _backup(env, 2, False, False, gz, False)
         if chains == 2:
             # a second chain in the same repository: another full backup and an incremental (older chain kept)
             h.commit([(T.oid(1), b'second-chain-1')])
+            snap()
             _backup(env, 3, True, False, gz, False)
             h.commit([(T.oid(3), b'second-chain-2')])
+            snap()
             _backup(env, 4, False, False, gz, False)
         st.close()
         files = sorted(nm for nm in env.fs.os.listdir(REPO) if not nm.endswith(('.dat', '.index')))
@@ -301,6 +311,14 @@ def h_verify_damage(kind: int, fsel: int, pos: int, gz: bool, quick: bool, chain
             check(detected, 'full verification passed although a backup file is missing / truncated / altered', f, k)
         elif changed_size and not gz:
             check(detected, 'quick verification passed although a backup file is missing or has another size', f, k)
+        # a missing file: recover --with-verify either refuses, or what it delivers is the data file at one of the backups
+        # (a missing LAST incremental simply means an earlier state) - never a file with a hole
+        if k == 0:
+            try:
+                got = _recover(env, withverify=True)
+            except Exception:
+                got = None
+            check(got is None or got in states, 'recover --with-verify delivered a file that is no backed-up state although a backup file is missing', f)
         # recover --with-verify must refuse the same repository when full verify does
         if not quick and detected and k != 0:
             try:
